@@ -197,6 +197,15 @@ def ev_usage(case) -> R:
     out = run_cli(["--root", str(root), "spdx", "--add-license-concluded"])
     if out.exit_code != 2 or out.exc:
         r.violation("concluded-without-creator-accepted", f"--add-license-concluded without creator: {out.brief()}")
+    # the alternative spellings of two options are the same options
+    canon_ = run_cli(["--root", str(root), "--no-multiprocessing", "spdx", "--add-license-concluded", "--creator-person", "J", "--creator-organization", "Acme"])
+    alias = run_cli(["--root", str(root), "--no-multiprocessing", "spdx", "--add-licence-concluded", "--creator-person", "J", "--creator-organisation", "Acme"])
+    if canon_.exc or canon_.exit_code != 0:
+        raise HarnessError(f"spdx failed: {canon_.brief()}")
+    norm = lambda t: re.sub(r"(DocumentNamespace|Created): \S+", r"\1: X", t)
+    if alias.exc or alias.exit_code != 0 or norm(alias.stdout) != norm(canon_.stdout):
+        r.violation("option-alias-differs", f"`spdx --add-licence-concluded --creator-person J --creator-organisation Acme`: {str(alias.brief())[:300]} "
+                                            f"but the '-license-' / '-organization' spellings give a document")
     r.outcome = "usage"
     return r
 
